@@ -316,8 +316,14 @@ func sortI64(a []int64) {
 
 func init() {
 	families["policy"] = func(rng *Rng, n int, out *Out, replay string) {
+		// sequences of accepted messages: the seeded-change demonstration literally, then random plans
+		runSequence(NewRng(rng.U64()), out, directedSeqPlan(), false)
 		for sc := -nDirected; sc < n; sc++ {
 			r := NewRng(rng.U64())
+			if sc >= 0 && sc%40 == 7 {
+				runSequence(r, out, randomSeqPlan(r), true)
+				continue
+			}
 			out.Emit("reset", "ok", "reset", false) // a new history: bin/check reports the first failure of each predicate per history
 			w := policyWorld(r)
 			if sc >= 0 {
